@@ -87,7 +87,7 @@ static const family F08Q[] = {
 static const family F08T[] = {
     { "workspace sweep 12x12 (4 block/grid patterns + 12 generated patterns) x vals2 x tune{default,(3,8,8..),(8,4,16..)} x type4 x every multiple of 4 up to 24 KiB x align{0,4} x {LU, ILU with fill factor 1}", 7, { 16, 2, 3, 4, 6144, 2, 2 }, set08W12 },
     { "workspace sweep 8x8: BASE(8) NATURAL x vals2 x tune4 x type4 x lengths{68.. step 4 cycling residues, 1400 lengths} x align2 x {LU, ILU with fill factor 1}", 7, { 9, 2, 4, 4, 1400, 2, 2 }, set08W8 },
-    { "workspace sweep: BASE(6) x vals3 x colperm4 x tune8 x type4 x {LU,ILU} x every byte length 1..3584 x align{0,4}", 8, { 9, 3, 4, 8, 4, 2, LMAX_T, 2 }, set08W },
+    { "workspace sweep: BASE(6) x vals2 x colperm4 x tune4 x type4 x {LU,ILU} x every byte length 1..3584 x align{0,4}", 8, { 9, 2, 4, 4, 4, 2, LMAX_T, 2 }, set08W },
     { "workspace sweep on DEV_1(BASE(6)) x tune3 x type4 x lengths{32..4096 step 32} x align2", 6, { 9, 37, 3, 4, 128, 2 }, set08Wd },
     { "size query lwork=-1: BASE(6) x dev{0..36} x vals3 x tune8 x type4 x {LU,ILU} x Equil2 x Fact3 x fill5", 9, { 9, 37, 3, 8, 4, 2, 2, 3, 5 }, set08Q },
     { "k-th growth request fails: DEV_1(BASE(6)) x vals3 x colperm4 x tune8 x type4 x {LU,ILU} x k{1..20}", 8, { 9, 37, 3, 4, 8, 4, 2, 20 }, set08K },
@@ -192,6 +192,7 @@ static void run_C08(const vcase *c, vres *r)
     }
     if (c->lworkmode == 2) {
         /* size query: only info / mem_usage may change.  For the reuse modes a factorization is done first. */
+        long live0 = vf_live_count();
         xs s; xs_init(&s, T, n, c->pat, c->vals, c->stor); s.ilu = c->aux;
         dmat B; make_rhs(T, &s.A_orig, 0, c->rhs, 1, &B); xs_set_rhs(&s, &B, 0, 0);
         superlu_options_t opt;
@@ -240,6 +241,10 @@ static void run_C08(const vcase *c, vres *r)
         }
     q_done:
         xs_destroy(&s);
+        if (!r->status && vf_live_count() != live0) {      /* nothing of the library's own may survive the caller's destroy calls */
+            vf_block bl[8]; int nb = vf_live_list(bl, 8); char m[240]; size_t o = 0; m[0] = 0;
+            for (int i = 0; i < nb && o + 60 < sizeof m; i++) { const char *sl = strrchr(bl[i].file, '/'); o += snprintf(m + o, sizeof m - o, " %s:%d(%s)", sl ? sl + 1 : bl[i].file, bl[i].line, bl[i].func); }
+            wk_fail(r, "leak-after-query", "size query (Fact=%d Equil=%d ilu=%d): %ld block(s) still allocated after the caller destroyed everything:%s", c->fact, c->equil, c->aux, vf_live_count() - live0, m); vf_release_all(); }
         return;
     }
     if (c->lworkmode == 3) {
